@@ -46,8 +46,11 @@ OnBuild(s, e, ln) ==
       c17 == \/ ~(h.vary.k = "val" /\ h.vary.v = [k |-> "txt", s |-> "accept-encoding"])
              \/ ceOther
              \/ gzHdr \notin want
+             \/ gzHdr # (e.sg /\ s.level > 0)      \* "as should_gzip decides", whatever the headers are
+      \* HEAD: no writer, and the very headers a GET gets (which C17 pins down)
       c15 == \/ (s.mclass = "head" /\ e.writer)
              \/ (s.mclass # "head" /\ ~e.writer)
+             \/ (s.mclass = "head" /\ c17)
       c0 == IF e.writer THEN s.c ELSE [s.c EXCEPT !.wd = TRUE, !.dead = TRUE, !.prog = <<>>]
   IN [s EXCEPT !.built = TRUE, !.writer = e.writer, !.gzhdr = gzHdr, !.gz = gzHdr, !.c = c0,
                !.cOK = Strict /\ ~gzHdr,
